@@ -56,6 +56,33 @@ let show_outcome show = function
   | Ok a -> "ok:" ^ show a
   | Err e -> "err" ^ string_of_int (int_of_n (err_code e))
   | Panic -> "PANIC"
+(* ---- C04: the device's side of the join procedure (library functions) ---- *)
+let s_joinreq g obs =
+  let k = getb g "key" in
+  let j = { jr_appeui = n_of_hex (g "appeui"); jr_deveui = n_of_hex (g "deveui"); jr_devnonce = getn g "nonce" } in
+  let mt = getn g "mt" in
+  let model = show_outcome hex_of_bytes (encode_join_request e k mt N0 j) in
+  let verdict =
+    if int_of_n mt <> 0 then (if String.length obs >= 3 && String.sub obs 0 3 = "err" then "ok" else "bad:join-request-encoded-for-another-message-type")
+    else if obs = "ok:" ^ hex_of_bytes (ref_join_request e k (le_bytes (nat_of_int 8) j.jr_appeui) (le_bytes (nat_of_int 8) j.jr_deveui) (be_bytes (nat_of_int 2) j.jr_devnonce))
+    then "ok" else "bad:library-join-request-is-not-the-specified-one" in
+  (model, verdict)
+let s_joinacc g obs =
+  let k = getb g "key" and buf = getb g "buf" and dn = getb g "devnonce" in
+  let show (j : joinacc) = Printf.sprintf "%s/%d/%d/%d/%d/%d/%d" (hex_of_bytes j.ja_appnonce) (int_of_n j.ja_netid) (int_of_n j.ja_devaddr.nwkid)
+      (int_of_n j.ja_devaddr.nwkaddr) (int_of_n j.ja_rx1droffset) (int_of_n j.ja_rx2dr) (int_of_n j.ja_rxdelay) in
+  let model = show_outcome show (decode_join_accept e k buf) in
+  (* the reference device (Spec/RefDevice.v) accepts exactly the join-accepts the library function accepts, with the same address *)
+  let verdict =
+    match ref_on_join_accept e k dn buf with
+    | Some ((addr, _), _) ->
+      (match String.split_on_char '/' obs with
+       | [_; _; nwkid; nwkaddr; _; _; _] when String.length obs > 3 && String.sub obs 0 3 = "ok:" ->
+         if int_of_string nwkid * 33554432 + int_of_string nwkaddr = int_of_n addr then "ok" else "bad:library-device-derives-another-address"
+       | _ -> "bad:library-device-rejects-a-genuine-join-accept")
+    | None -> if String.length obs >= 3 && String.sub obs 0 3 = "ok:" then "bad:library-device-accepts-an-unauthentic-join-accept" else "ok" in
+  (model, verdict)
+
 let nlist_of_string s = List.map (fun x -> n_of_int (int_of_string x)) (split_list s)
 let string_of_nlist l = "[" ^ String.concat "," (List.map (fun x -> string_of_int (int_of_n x)) l) ^ "]"
 
@@ -365,6 +392,8 @@ let register_all register =
   register "histC10" (s_hist Judge.judge_c10);
   register "histC11" (s_hist Judge.judge_c01);
   register "histC17" (s_hist Judge.judge_c17);
+  register "joinreq" s_joinreq;
+  register "joinacc" s_joinacc;
   register "phy" s_phy;
   register "phyenc" s_phyenc;
   register "maccmd" s_maccmd;
